@@ -29,6 +29,7 @@ def main():
     outdir = sys.argv[sys.argv.index("--outdir") + 1] if "--outdir" in sys.argv else "/tmp/wt/out"
     wt = sys.argv[sys.argv.index("--wt") + 1] if "--wt" in sys.argv else "/tmp/wt/confirm"
     koff = int(sys.argv[sys.argv.index("--koff") + 1]) if "--koff" in sys.argv else 0
+    race = ["-race"] if "--race" in sys.argv else []
     src = os.path.join(outdir, prop)
     patch = os.path.join(src, "seed%s.patch.diff" % k)
     demo = os.path.join(src, "seed%s_demo_test.go" % k)
@@ -44,14 +45,14 @@ def main():
     shutil.copy("/verif/seeded/_harness/fakekernel_test.go", "/dev/null")
     demo_dst = os.path.join(wt, d, "zz_seed_test.go")
     shutil.copy(demo, demo_dst)
-    meta = {"property": prop, "seed": int(k) + koff, "round": 2 if koff else 1, "demo_dir": d, "ran": []}
-    rc1, out1 = sh(["go", "test", "-vet=off", "-count=1", "-timeout", "300s", "-run", "Seed", "./" + d + "/"], wt)
+    meta = {"property": prop, "seed": int(k) + koff, "round": {0: 1, 2: 2, 5: 3}.get(koff, 1 + koff), "demo_dir": d, "ran": [], "demo_flags": " ".join(race)}
+    rc1, out1 = sh(["go", "test"] + race + ["-vet=off", "-count=1", "-timeout", "300s", "-run", "Seed", "./" + d + "/"], wt)
     meta["ran"].append({"cmd": "clean tree: go test -vet=off -count=1 -run Seed ./%s/" % d, "exit": rc1})
     rc, out = sh(["git", "apply", "--whitespace=nowarn", patch], wt)
     meta["ran"].append({"cmd": "git apply patch.diff", "exit": rc})
     rcb, outb = sh(["go", "build", "./..."], wt)
     meta["ran"].append({"cmd": "patched: go build ./...", "exit": rcb})
-    rc2, out2 = sh(["go", "test", "-vet=off", "-count=1", "-timeout", "300s", "-run", "Seed", "./" + d + "/"], wt)
+    rc2, out2 = sh(["go", "test"] + race + ["-vet=off", "-count=1", "-timeout", "300s", "-run", "Seed", "./" + d + "/"], wt)
     meta["ran"].append({"cmd": "patched: go test -vet=off -count=1 -run Seed ./%s/" % d, "exit": rc2,
                         "tail": [l for l in out2.splitlines() if "FAIL" in l or "---" in l or "_test.go" in l][:12]})
     os.remove(demo_dst)
